@@ -154,6 +154,9 @@ func makeApology(ev abcitypes.Event, height int64) (*Apology, error) {
 		e.SetBytes(b)
 		polyEval = append(polyEval, e)
 	}
+	if len(accusers) != len(polyEval) {
+		return nil, errors.Errorf("number of accusers %d and apology evals %d not equal", len(accusers), len(polyEval))
+	}
 	return &Apology{
 		Height:   height,
 		Sender:   sender,
@@ -484,6 +487,9 @@ func makePolyEval(ev abcitypes.Event, height int64) (*PolyEval, error) {
 	encryptedEvals, err := decodeByteSequence(ev.Attributes[3].Value)
 	if err != nil {
 		return nil, err
+	}
+	if len(receivers) != len(encryptedEvals) {
+		return nil, errors.Errorf("number of receivers %d does not match number of evals %d", len(receivers), len(encryptedEvals))
 	}
 
 	return &PolyEval{
